@@ -279,6 +279,7 @@ func (sc *c12Scenario) Run(s *simrt.Sim) {
 		sc.closeInv, sc.closeRet = op.Inv, op.Ret
 	}
 	if sc.Early {
+		s.Fault("close-while-senders-active")
 		s.Go("closer", func() {
 			for i := 0; i < sc.EarlyD; i++ {
 				s.YieldHard()
